@@ -79,7 +79,10 @@ class HashClient:
         self.retry_timeout = retry_timeout
         self.dead_timeout = dead_timeout
         self.use_pooling = use_pooling
-        self.key_prefix = key_prefix
+        # the routing key is validated with this prefix: bytes, as in Client
+        self.key_prefix = (
+            key_prefix.encode("ascii") if isinstance(key_prefix, str) else key_prefix
+        )
         self.ignore_exc = ignore_exc
         self.allow_unicode_keys = allow_unicode_keys
         self._failed_clients = {}
